@@ -1,6 +1,7 @@
 import Dcg.Driver.Proto
 import Dcg.Model.Template
 import Dcg.Gen.TemplateAst
+import Dcg.Model.TemplateBlock
 /-! Driver for the template interpreter: `tpl.render <template name> <context>` renders one of the
 generated template ASTs in a context given as an S-expression:
 
@@ -8,7 +9,7 @@ generated template ASTs in a context given as an S-expression:
 
 reply: `ok <hex text>` | `err undefined` | `err type` | `unmodelled <what>` | `unsupported`. -/
 namespace Dcg.Driver.Template
-open Dcg.Driver Dcg.Model.Template Dcg.Model.TemplateSyntax
+open Dcg.Driver Dcg.Model.Template Dcg.Model.TemplateSyntax Dcg.Model.TemplateAbs Dcg.Model.TemplateBlock
 
 partial def val? : SX → Option Val
   | .atom "undef" => some .undef
@@ -32,7 +33,30 @@ def errStr : Err → String
   | .unmodelled w => "unmodelled " ++ w.replace " " "_"
   | .unsupported => "unsupported"
 
+def factsStr (σ : Facts) : String :=
+  ",".intercalate (σ.map (fun p => p.1.src ++ "=" ++ (if p.2 then "1" else "0")))
+
+/-- model-level refuter of the block check: the first assignment of the context names the template
+reads under which the class block may be malformed -/
+def blockRefute (strict : Bool) (t : List Tpl) : String :=
+  match refute blockAuto BSt.init (if strict then goodClass else good) [] (factExprs t) t with
+  | none => "none"
+  | some σ =>
+    let why := match finalStates blockAuto BSt.init σ t with
+      | none => "giveup"
+      | some S => if S.any (fun b => b.phase == .first || b.hdr) then "nobody"
+                  else if S.any (fun b => b.bad) then "shape" else "noclass"
+    "refuted " ++ why ++ " " ++ factsStr σ
+
 def handlers : List (String × Handler) := [
+  ("tpl.blockrefute", fun
+    | [name, strict] => match name.str?, strict.bool? with
+      | some name, some strict =>
+        (match Dcg.Gen.TemplateAst.templates.lookup (String.ofList name) with
+         | some t => blockRefute strict t
+         | none => "err no-such-template")
+      | _, _ => "err args"
+    | _ => "err args"),
   ("tpl.render", fun
     | [name, ctx] => match name.str?, val? ctx with
       | some name, some (.dict kvs) =>
